@@ -130,3 +130,196 @@ Theorem force_single_covers_exact fuel st v incl st' r :
 Proof.
   apply (force_single_covers_any_arith xarith x_lt_asym x_lt_neq x_eq_nlt x_le_nlt). reflexivity.
 Qed.
+
+(** ---------- in exact arithmetic the translated code IS the model's force_single ----------
+    The loops added by the repair (_cover_value, _drop_unneeded_bins) do nothing when floor and ceil are exact, so the
+    theorems of Props/C04.v, proved about Model/Adaptive.force_single, are theorems about the current source. *)
+Definition embed (b : fw) (ir : bool) : @fwst xnum :=
+  mk_fw (f_tmin b) (Z.of_nat (f_count b)) (Fin (f_w b)) (Fin (f_shift b)) (f_align b) ir.
+Definition embed_ret (m : bmap) : optint :=
+  match m with BNone => OINone | BShift s => OIInt (Z.of_nat s) | BEmpty => OITuple0 end.
+
+Lemma first_edge_x t c w sh al ir : g_fw_first_edge xarith (mk_fw t c (Fin w) (Fin sh) al ir) = Fin (qz t * w + sh).
+Proof. reflexivity. Qed.
+Lemma last_edge_x t c w sh al ir : g_fw_last_edge xarith (mk_fw t c (Fin w) (Fin sh) al ir) = Fin (qz (t + c) * w + sh).
+Proof. reflexivity. Qed.
+
+Lemma cover_noop fuel t c w sh al ir v :
+  qz t * w + sh <= v -> v < qz (t + c) * w + sh ->
+  g_fw_cover_value xarith fuel (mk_fw t c (Fin w) (Fin sh) al ir) (Fin v) false =
+  Done (mk_fw t c (Fin w) (Fin sh) al ir, (0, 0)%Z).
+Proof.
+  intros H1 H2. unfold g_fw_cover_value. cbn [fisfinite xarith xfinite negb].
+  rewrite while_false.
+  2:{ rewrite first_edge_x. cbn [flt xarith]. rewrite xlt_fin. apply Qcltb_ge. exact H1. }
+  cbn [rbind]. rewrite while_false.
+  2:{ rewrite last_edge_x. cbn [flt feq xarith negb]. rewrite xlt_fin. rewrite andb_true_r.
+      apply orb_false_iff. split.
+      - apply Qcltb_ge. apply Qclt_le_weak. exact H2.
+      - cbn [xfeq xeqb]. destruct (Qceqb v (qz (t + c) * w + sh)) eqn:E; [|reflexivity].
+        apply Qceqb_eq in E. rewrite <- E in H2. apply Qcltb_lt in H2. rewrite Qcltb_irrefl in H2. discriminate. }
+  reflexivity.
+Qed.
+
+Lemma drop_noop fuel t c w sh al ir v nl nr : (1 <= fuel)%nat ->
+  ((nl <= 0)%Z \/ (c <= 1)%Z \/ v < qz (t + 1) * w + sh) ->
+  ((nr <= 0)%Z \/ (c <= 1)%Z \/ qz (t + c - 1) * w + sh <= v) ->
+  g_fw_drop_unneeded_bins xarith fuel (mk_fw t c (Fin w) (Fin sh) al ir) (Fin v) false nl nr =
+  Done (mk_fw t c (Fin w) (Fin sh) al ir, (0, 0)%Z).
+Proof.
+  intros Hf HL HR. unfold g_fw_drop_unneeded_bins. cbn [fisfinite xarith xfinite negb].
+  rewrite while_false.
+  2:{ cbn [fw_times_min fw_bin_count fw_bin_width fw_shift fle fadd fmul of_Z xarith xmul xadd]. rewrite xle_fin.
+      destruct HL as [H|[H|H]].
+      - replace (0 <? nl)%Z with false by (symmetry; apply Z.ltb_ge; lia). reflexivity.
+      - replace (1 <? c)%Z with false by (symmetry; apply Z.ltb_ge; lia). rewrite andb_false_r. reflexivity.
+      - replace (Qcleb (qz (t + 1) * w + sh) v) with false by (symmetry; apply Qcleb_gt; exact H). apply andb_false_r. }
+  cbn [rbind].
+  destruct fuel as [|n]; [lia|]. cbn [while_].
+  cbn [fw_times_min fw_bin_count fw_bin_width fw_shift flt feq fadd fmul of_Z xarith xmul xadd].
+  destruct ((0 <? nr)%Z && (1 <? c)%Z) eqn:Hc; [|reflexivity].
+  apply andb_true_iff in Hc. destruct Hc as [Hc1 Hc2]. apply Z.ltb_lt in Hc1. apply Z.ltb_lt in Hc2.
+  destruct HR as [H|[H|H]]; [lia|lia|].
+  rewrite xlt_fin, andb_false_r, orb_false_r.
+  replace (Qcltb v (qz (t + c - 1) * w + sh)) with false by (symmetry; apply Qcltb_ge; exact H).
+  reflexivity.
+Qed.
+
+Lemma w_nz (w : Qc) : 0 < w -> Qceqb w 0 = false.
+Proof. intros H. destruct (Qceqb w 0) eqn:E; [|reflexivity]. apply Qceqb_eq in E. subst. apply Qcltb_lt in H. rewrite Qcltb_irrefl in H. discriminate. Qed.
+
+Ltac fwcbn := unfold set_fw_times_min, set_fw_bin_count, set_fw_bin_width, set_fw_shift, set_fw_align, set_fw_includes_right_edge; cbn [set_fw_times_min set_fw_bin_count set_fw_bin_width set_fw_shift set_fw_align set_fw_includes_right_edge
+                   fw_times_min fw_bin_count fw_bin_width fw_shift fw_align fw_includes_right_edge
+                   f_w f_shift f_tmin f_count f_align fst snd].
+
+Ltac fwcbn_in H := cbn [set_fw_times_min set_fw_bin_count set_fw_bin_width set_fw_shift set_fw_align set_fw_includes_right_edge
+                   fw_times_min fw_bin_count fw_bin_width fw_shift fw_align fw_includes_right_edge
+                   f_w f_shift f_tmin f_count f_align fst snd] in H.
+
+Lemma ar_left (fe v al w : Qc) : 0 < w -> al < (fe - v) / w + 1 -> v < fe - al * w + w.
+Proof.
+  intros Hw H. assert (D : (fe - v) / w * w = fe - v) by (field; apply pos_neq0'; exact Hw).
+  pose proof (mul_lt_pos _ _ _ H Hw) as G. rewrite Qcmult_plus_distr_l, D in G. qc2q; lra.
+Qed.
+Lemma ar_pos (x w al : Qc) : 0 < x -> 0 < w -> x / w <= al -> 0 < al.
+Proof.
+  intros Hx Hw H. assert (D : x / w * w = x) by (field; apply pos_neq0'; exact Hw).
+  pose proof (mul_le_pos _ _ _ H Hw) as G. rewrite D in G. qc2q; nra.
+Qed.
+Lemma ar_right (le v ar w : Qc) : 0 < w -> ar < (v - le) / w + 1 -> le + ar * w - w <= v.
+Proof.
+  intros Hw H. assert (D : (v - le) / w * w = v - le) by (field; apply pos_neq0'; exact Hw).
+  pose proof (mul_lt_pos _ _ _ H Hw) as G. rewrite Qcmult_plus_distr_l, D in G. qc2q; lra.
+Qed.
+Lemma qz_pos_inv z : 0 < qz z -> (1 <= z)%Z.
+Proof.
+  intros H. destruct (Z_lt_le_dec z 1) as [L|L]; [|exact L]. exfalso.
+  assert (H0 : qz z <= qz 0) by (apply qz_le; lia). rewrite qz_0 in H0. qc2q; lra.
+Qed.
+Lemma zofnat_eqb0 n : (Z.of_nat n =? 0)%Z = Nat.eqb n 0.
+Proof. destruct n; reflexivity. Qed.
+
+Theorem gen_force_single_is_model fuel b v ir : 0 < f_w b -> (1 <= fuel)%nat ->
+  g_fw_force_bin_existence_single xarith fuel (embed b ir) (Fin v) (Some false) =
+  Done (embed (fst (force_single b v false)) ir, embed_ret (snd (force_single b v false))).
+Proof.
+  intros Hw Hf. pose proof (force_single_covers b v Hw) as HC. simpl in HC.
+  pose proof (w_nz _ Hw) as Hwz. pose proof (pos_neq0' _ Hw) as Hw0.
+  unfold g_fw_force_bin_existence_single, embed, force_single in *.
+  fwcbn. rewrite zofnat_eqb0.
+  destruct (Nat.eqb (f_count b) 0) eqn:Ec.
+  - fwcbn. fwcbn_in HC.
+    cbn [ffloor fdiv fsub fmul of_Z xarith xsub xneg xadd xdiv xmul] . rewrite Hwz. cbn [xfloor].
+    set (t := qfloor ((v - f_shift b) / f_w b)) in *.
+    change (Qfloor ((v + - f_shift b) / f_w b)%Qc) with t.
+    change (v + - (qz t * f_w b)) with (v - qz t * f_w b).
+    destruct HC as [_ [H1 [H2 _]]]. rewrite edge0 in H1. unfold fw_edge in H2. fwcbn_in H1. fwcbn_in H2.
+    change (Z.of_nat 1) with 1%Z in *.
+    destruct (f_align b); cbn [negb]; fwcbn.
+    + rewrite cover_noop by assumption. cbn [rbind]. fwcbn.
+      rewrite drop_noop; [reflexivity| exact Hf | right; left; lia | right; left; lia].
+    + rewrite cover_noop by assumption. cbn [rbind]. fwcbn.
+      rewrite drop_noop; [reflexivity| exact Hf | right; left; lia | right; left; lia].
+  - apply Nat.eqb_neq in Ec.
+    rewrite !first_edge_x, !last_edge_x. cbn [flt fle xarith]. rewrite xlt_fin, xle_fin.
+    rewrite edge0 in *. 
+    destruct (Qcltb v (qz (f_tmin b) * f_w b + f_shift b)) eqn:E1.
+    + fwcbn. fwcbn_in HC. apply Qcltb_lt in E1.
+      set (fe := qz (f_tmin b) * f_w b + f_shift b) in *.
+      cbn [fceil fdiv fsub xarith xsub xneg xadd xdiv]. rewrite Hwz. cbn [xceil].
+      change (Qceiling (this ((fe + - v) / f_w b)%Qc)) with (qceil ((fe - v) / f_w b)).
+      destruct (ceil_spec ((fe - v) / f_w b)) as [C1 C2].
+      set (al := qceil ((fe - v) / f_w b)) in *.
+      assert (Hal : (1 <= al)%Z).
+      { apply qz_pos_inv. apply (ar_pos (fe - v) (f_w b)); auto. qc2q; lra. }
+      rewrite Z2Nat.id in * by lia.
+      destruct HC as [_ [H1 [H2 _]]]. rewrite edge0 in H1. unfold fw_edge in H2. fwcbn_in H1. fwcbn_in H2.
+      rewrite Nat2Z.inj_add, Z2Nat.id in H2 by lia.
+      rewrite cover_noop; [| exact H1 | exact H2].
+      cbn [rbind]. 
+      rewrite drop_noop; [| exact Hf | right; right | left; lia].
+      * cbn [rbind]. replace (al + 0 - 0 =? 0)%Z with false by (symmetry; apply Z.eqb_neq; lia). cbn [negb orb].
+        replace (Z.to_nat al =? 0)%nat with false by (symmetry; apply Nat.eqb_neq; lia).
+        cbn [embed_ret]. rewrite Z2Nat.id by lia. rewrite Nat2Z.inj_add, Z2Nat.id by lia.
+        replace (al + 0 - 0)%Z with al by lia. reflexivity.
+      * replace (f_tmin b - al + 1)%Z with (f_tmin b + (- al + 1))%Z by lia.
+        rewrite qz_add, qz_add, qz_opp, qz_1.
+        pose proof (ar_left fe v (qz al) (f_w b) Hw C2) as G. unfold fe in G.
+        replace ((qz (f_tmin b) + (- qz al + 1)) * f_w b + f_shift b) with (qz (f_tmin b) * f_w b + f_shift b - qz al * f_w b + f_w b) by ring.
+        exact G.
+    + apply Qcltb_ge in E1.
+      change (fw_edge b (f_count b)) with (qz (f_tmin b + Z.of_nat (f_count b)) * f_w b + f_shift b) in *.
+      set (le := qz (f_tmin b + Z.of_nat (f_count b)) * f_w b + f_shift b) in *.
+      destruct (Qcleb le v) eqn:E2.
+      * apply Qcleb_le in E2.
+        fwcbn. fwcbn_in HC.
+        cbn [fceil fdiv fsub xarith xsub xneg xadd xdiv]. rewrite Hwz. cbn [xceil].
+        change (Qceiling (this ((v + - le) / f_w b)%Qc)) with (qceil ((v - le) / f_w b)).
+        assert (Hd : 0 <= (v - le) / f_w b).
+        { apply div_nonneg; auto. qc2q; lra. }
+        destruct (ceil_spec ((v - le) / f_w b)) as [C1 C2].
+        pose proof (ceil_nonneg _ Hd) as Cn.
+        set (ar := qceil ((v - le) / f_w b)) in *.
+        unfold fw_edge in *. fwcbn. fwcbn_in HC.
+        cbn [feq xarith xfeq xeqb negb]. rewrite !andb_true_r in *.
+        rewrite !Nat2Z.inj_add, !Z2Nat.id in * by lia.
+        set (l1 := qz (f_tmin b + (Z.of_nat (f_count b) + ar)) * f_w b + f_shift b) in *.
+        assert (Hl1 : l1 = le + qz ar * f_w b).
+        { unfold l1, le. rewrite Z.add_assoc, qz_add. ring. }
+        destruct (Qceqb l1 v) eqn:E3.
+        -- apply Qceqb_eq in E3. fwcbn.
+           rewrite cover_noop; [| rewrite Z.add_0_r in HC; exact E1 |].
+           2:{ replace (f_tmin b + (Z.of_nat (f_count b) + ar + 1))%Z with ((f_tmin b + (Z.of_nat (f_count b) + ar)) + 1)%Z by lia.
+               rewrite qz_add, qz_1. fold l1. 
+               replace ((qz (f_tmin b + (Z.of_nat (f_count b) + ar)) + 1) * f_w b + f_shift b) with (l1 + f_w b) by (unfold l1; ring).
+               rewrite E3. qc2q; lra. }
+           cbn [rbind].
+           rewrite drop_noop; [| exact Hf | left; lia | right; right].
+           2:{ replace (f_tmin b + (Z.of_nat (f_count b) + ar + 1) - 1)%Z with (f_tmin b + (Z.of_nat (f_count b) + ar))%Z by lia.
+               fold l1. rewrite E3. apply Qcle_refl. }
+           cbn [rbind]. replace (0 + 0 - 0 =? 0)%Z with true by reflexivity.
+           replace (ar + 1 + 0 - 0 =? 0)%Z with false by (symmetry; apply Z.eqb_neq; lia). cbn [negb orb].
+           rewrite andb_false_r. cbn [embed_ret fst snd]. fwcbn.
+           rewrite Nat2Z.inj_succ, Nat2Z.inj_add, Z2Nat.id by lia.
+           replace (Z.succ (Z.of_nat (f_count b) + ar)) with (Z.of_nat (f_count b) + ar + 1)%Z by lia. reflexivity.
+        -- fwcbn. fwcbn_in HC. destruct HC as [_ [_ [H2 _]]].
+           rewrite !Nat2Z.inj_add, !Z2Nat.id in H2 by lia. fold l1 in H2.
+           rewrite cover_noop; [| exact E1 | exact H2].
+           cbn [rbind].
+           rewrite drop_noop; [| exact Hf | left; lia | right; right].
+           2:{ replace (f_tmin b + (Z.of_nat (f_count b) + ar) - 1)%Z with ((f_tmin b + (Z.of_nat (f_count b) + ar)) + - (1))%Z by lia.
+               rewrite qz_add, qz_opp, qz_1.
+               pose proof (ar_right le v (qz ar) (f_w b) Hw C2) as G.
+               replace ((qz (f_tmin b + (Z.of_nat (f_count b) + ar)) + - (1:Qc)) * f_w b + f_shift b) with (l1 - f_w b) by (unfold l1; ring).
+               rewrite Hl1. exact G. }
+           cbn [rbind]. replace (0 + 0 - 0 =? 0)%Z with true by reflexivity. cbn [negb orb]. rewrite andb_true_r.
+           replace (ar + 0 - 0)%Z with ar by lia.
+           destruct (Z.eqb_spec ar 0) as [Ea|Ea].
+           ++ rewrite Ea. cbn [Z.to_nat Nat.eqb negb embed_ret]. rewrite Z.add_0_r, Nat.add_0_r. reflexivity.
+           ++ replace (Z.to_nat ar =? 0)%nat with false by (symmetry; apply Nat.eqb_neq; lia).
+              cbn [negb embed_ret]. rewrite Nat2Z.inj_add, Z2Nat.id by lia. reflexivity.
+      * apply Qcleb_gt in E2. fwcbn.
+        rewrite cover_noop; [| exact E1 | exact E2].
+        cbn [rbind]. rewrite drop_noop; [| exact Hf | left; lia | left; lia].
+        cbn [rbind]. cbn [Z.add Z.sub Z.eqb negb orb Z.opp embed_ret fst snd]. destruct b; reflexivity.
+Qed.
